@@ -266,6 +266,40 @@ def f4_obligations(P, E, out):
     PROPERTY["bounded"] = [{"check": "F4 CPython differential", "bound": f"{len(F4_PROBES)} probe scripts (scope constructs x consumers)"}]
 
 
+# F5: environment-sensitive scripts executed end to end (CPython vs firmware mock): a value the transpiler derives from its
+#     constant environment (folded lengths, global initialisers, glyph rows) must be the value the program has at that point
+F5_SCRIPTS = {
+    "swap-then-len": "a = 'xx'\nb = 'yyyy'\na, b = b, a\nmon.write(len(a))\nmon.write(len(b))\n",
+    "rotation-then-len": "a = 'x'\nb = 'yy'\nc = 'zzz'\na, b, c = c, a, b\nmon.write(len(a))\nmon.write(len(b))\nmon.write(len(c))\n",
+    "swap-numbers-then-derived": "a = 2\nb = 4\na, b = b, a\nc = a * 10 + b\nmon.write(c)\nmon.write(a)\nmon.write(b)\n",
+    "tuple-reads-earlier-target": "a = 1\nb = 2\na, b = a + b, a\nmon.write(a)\nmon.write(b)\nd = a + b\nmon.write(d)\n",
+    "global-derived-after-reassignment": "x = 2\nx = 5\ny = x + 1\nmon.write(y)\n",
+    "global-derived-after-branch-reassignment": "x = 2\nc = 1\nif c > 0:\n    x = 7\ny = x + 1\nmon.write(y)\n",
+    "global-derived-after-loop-reassignment": "x = 1\nfor i in range(3):\n    x = x * 2\ny = x + 1\nmon.write(y)\n",
+    "global-derived-after-swap": "p = 3\nq = 9\np, q = q, p\nr = p - q\nmon.write(r)\n",
+    "string-derived-after-reassignment": "s = 'ab'\ns = 'abcdef'\nt = s + '!'\nmon.write(t)\n",
+    "derived-in-main-loop": "x = 1\nwhile True:\n    y = x + 1\n    mon.write(y)\n    x = x + 2\n    sleep(1)\n",
+}
+
+
+def f5_obligations(out):
+    import multiprocessing as mp
+    from progs.diff import _one
+    from progs.corpus import HEAD
+    t0 = time.time()
+    with mp.Pool(10) as pool:
+        res = pool.map(_one, [(n, HEAD + s, 3) for n, s in sorted(F5_SCRIPTS.items())], chunksize=1)
+    per = round((time.time() - t0) / max(1, len(res)), 3)
+    for r in res:
+        v = r["verdict"]
+        ok = v in ("same", "rejected", "python-undefined")
+        status = "discharged" if ok else ("unknown" if v.startswith("harness") else "sat")
+        out.append({"name": f"C03/F5/{r['name']}", "status": status, "backend": "bounded-differential", "bounded": True,
+                    "where": f"script '{r['name']}': values derived from the constant environment equal CPython's at that point [{v}]", "time": per,
+                    "replay": {"script": HEAD + F5_SCRIPTS[r["name"]], "first_difference": r.get("first_difference"), "detail": r.get("detail")},
+                    "replay_confirmed": status == "sat"})
+
+
 def extra_obligations(mods, tier, seed):
     from contracts.c08 import real
     P, E = real("Reduino.transpile.parser"), real("Reduino.transpile.emitter")
@@ -275,6 +309,7 @@ def extra_obligations(mods, tier, seed):
     f2_static(out)
     f2_behaviour(P, out)
     f4_obligations(P, E, out)
+    f5_obligations(out)
     return out
 
 
